@@ -84,7 +84,7 @@ Section Silent.
   Lemma sx_chan_drop_rx ch H : suffX H (chan_drop_rx ch H). Proof. apply sx_same; reflexivity. Qed.
   Lemma sx_chan_reg ch w H : suffX H (chan_reg ch w H). Proof. apply sx_same; reflexivity. Qed.
   Lemma sx_drop_req e H : suffX H (drop_req e H).
-  Proof. unfold drop_req. destruct (e_res e); [apply sx_refl | apply sx_chan_drop_tx | apply sx_chan_drop_tx]. Qed.
+  Proof. unfold drop_req. destruct (e_res e); [apply sx_refl | apply sx_chan_drop_tx | apply sx_chan_drop_tx | apply sx_refl]. Qed.
   Lemma sx_kill_flag u H : suffX H (kill_flag u H). Proof. apply sx_same; reflexivity. Qed.
   Lemma sx_sub_drop q H : suffX H (sub_drop q H).
   Proof. unfold sub_drop. destruct q as [s d tg v ch|m]; [|apply sx_refl]. destruct d; [apply sx_refl | apply sx_chan_drop_rx]. Qed.
@@ -97,6 +97,7 @@ Section Silent.
       + destruct (f_leaf fs); try apply sx_refl.
         * destruct dead; [apply sx_refl | apply sx_chan_drop_rx].
         * apply IHcmd.
+        * apply sx_chan_drop_rx.
         * eapply sx_trans; apply sx_sub_drop.
         * eapply sx_trans; apply sx_sub_drop.
       + intros fr Hh. apply sx_chan_drop_rx.
@@ -195,7 +196,7 @@ Section Silent.
     unfold specS. split; [|split; [|split; [|split; [|split]]]].
     - (* poll *)
       intros c w fs H r H' Hne A E. cbn [step_funs rpoll] in E. unfold poll_body in E.
-      destruct (f_leaf fs) as [t|sent dead tg v ch x k| |u k|cid meff mev k|n k|qa qb x1 x2 k|qa qb x k] eqn:EL.
+      destruct (f_leaf fs) as [t|sent dead tg v ch x k| |u k|cid meff mev k|n k|lsent ltg lv lch lx k|qa qb x1 x2 k|qa qb x k] eqn:EL.
       + destruct t.
         * destruct (f_stack fs); [inversion E; subst; apply sx_refl | eapply IHp; eauto].
         * go_ih IHp Hne E A ltac:(apply Rmeta_ucmd; solve_good) ltac:(push_other Hne).
@@ -211,6 +212,8 @@ Section Silent.
         * eapply IHp; eauto.
         * go_ih IHp Hne E A ltac:(apply Rmeta_same_cmds; reflexivity) ltac:(apply sx_same; reflexivity).
         * eapply IHp; eauto.
+        * destruct (new_chan H) as [ch H1] eqn:E1.
+          go_ih IHp Hne E A ltac:(eapply rm_new_chan; exact E1) ltac:(eapply sx_new_chan; exact E1).
         * go_ih IHp Hne E A ltac:(apply Rmeta_add_aborted) ltac:(apply sx_same; reflexivity).
         * destruct (new_chan H) as [ch1 H1] eqn:E1. destruct (new_chan H1) as [ch2 H2] eqn:E2.
           go_ih IHp Hne E A ltac:(eapply Rmeta_trans; [eapply rm_new_chan; exact E1 | eapply rm_new_chan; exact E2])
@@ -251,6 +254,13 @@ Section Silent.
         * go_ih IHp Hne E A ltac:(eapply Rmeta_trans; [exact M1 | apply Rmeta_ucmd; solve_good]) ltac:(eapply sx_trans; [exact S1 | push_other Hne]).
       + (* LYield *)
         destruct n; [eapply IHp; eauto|]. inversion E; subst. apply sx_wake.
+      + (* LLeg *)
+        set (H1 := if lsent then H else push_hout (mkEff ltg lv [] (RLegacy lch)) H) in *.
+        assert (S1 : suffX H H1) by (subst H1; destruct lsent; [apply sx_refl | apply sx_same; reflexivity]).
+        assert (M1 : Rmeta H H1) by (subst H1; destruct lsent; [apply Rmeta_refl | apply Rmeta_same_cmds; reflexivity]).
+        destruct (ch_buf (gch lch H1)).
+        * inversion E; subst. eapply sx_trans; [exact S1 | apply sx_chan_reg].
+        * go_ih IHp Hne E A ltac:(eapply Rmeta_trans; [exact M1 | apply Rmeta_same_cmds; reflexivity]) ltac:(eapply sx_trans; [exact S1 | apply sx_chan_drop_rx]).
       + (* LBoth *)
         destruct (sub_poll c w qa H) as [a' H1] eqn:E1. destruct (sub_poll c w qb H1) as [b' H2] eqn:E2.
         pose proof (sx_sub_poll _ _ _ _ _ _ Hne E1) as S1. pose proof (sx_sub_poll _ _ _ _ _ _ Hne E2) as S2.
